@@ -168,6 +168,8 @@ def elf_sites(repo, L):
             bad.append("elf.c guard IS_VALID_PTR(%s): declaration not found" % var); continue
         region = text[g.end():g.end() + 1500]
         flds = sorted(set(re.findall(r"\b%s->(\w+)" % re.escape(var), region)))
+        kreads = [(int(k), f) for k, f in re.findall(r"\b%s\[(\d+)\]\.(\w+)" % re.escape(var), region)] + \
+                 [(int(k), f) for k, f in re.findall(r"\(\s*%s\s*\+\s*(\d+)\s*\)->(\w+)" % re.escape(var), region)]
         for bits in (32, 64):
             ty = "elf%d_%s" % (bits, decl[0])
             if ty not in L.structs:
@@ -175,9 +177,51 @@ def elf_sites(repo, L):
             sz, fl = L.structs[ty]
             if any(f not in fl for f in flds) or not flds:
                 bad.append("elf.c %s: field of %s unknown (%s)" % (var, ty, flds)); continue
-            ext = max(fl[f][0] + fl[f][1] for f in flds)
+            ext = max([fl[f][0] + fl[f][1] for f in flds] + [k * sz + fl[f][0] + fl[f][1] for k, f in kreads if f in fl])
             sites.append(dict(name="elf.parse_elf_header_%d.%s" % (bits, var), file=rel, guard_type="sizeof(*%s)=%s" % (var, ty), guard_size=sz, ptr_type=ty, read_extent=ext, fields=flds))
     return sites, bad
+
+
+def numeric_sites(repo, rel, L):
+    """shape (a): `fits_in_pe(pe, VAR, <number>)` followed — until the next guard of the same pointer — by `*VAR`, `*(VAR + k)`, `VAR[k]`, `*(T*) VAR`, `*(T*) (VAR + k)`"""
+    text = strip_comments(open(os.path.join(repo, rel)).read())
+    sites = []
+    for (fs, fe) in functions(text):
+        body = text[fs:fe]
+        fn = fname(text, fs)
+        guards = list(re.finditer(r"(?<![_\w])fits_in_pe\(\s*pe\s*,\s*(\w+)\s*,\s*(\d+)\s*\)", body))
+        for gi, g in enumerate(guards):
+            var, n = g.group(1), int(g.group(2))
+            nxt = re.compile(r"fits_in_pe\(\s*pe\s*,\s*%s\s*," % re.escape(var)).search(body, g.end())
+            region = body[g.end():nxt.start() if nxt else len(body)]
+            ext, reads = 0, []
+            v = re.escape(var)
+            for m in re.finditer(r"\*\s*\(\s*(\w+)\s*\*\s*\)\s*\(\s*%s\s*\+\s*(\d+)\s*\)" % v, region):
+                w = L.prim.get(m.group(1), 1); ext = max(ext, int(m.group(2)) + w); reads.append("*(%s*)(%s+%s)" % (m.group(1), var, m.group(2)))
+            for m in re.finditer(r"\*\s*\(\s*(\w+)\s*\*\s*\)\s*%s\b(?!\s*\+)" % v, region):
+                w = L.prim.get(m.group(1), 1); ext = max(ext, w); reads.append("*(%s*)%s" % (m.group(1), var))
+            for m in re.finditer(r"\*\s*\(\s*%s\s*\+\s*(\d+)\s*\)" % v, region):
+                ext = max(ext, int(m.group(1)) + 1); reads.append("*(%s+%s)" % (var, m.group(1)))
+            for m in re.finditer(r"(?<![\w\)])\*\s*%s\b" % v, region):
+                ext = max(ext, 1); reads.append("*%s" % var)
+            for m in re.finditer(r"\b%s\[(\d+)\]" % v, region):
+                ext = max(ext, int(m.group(1)) + 1); reads.append("%s[%s]" % (var, m.group(1)))
+            if reads:
+                sites.append(dict(name="%s.%s.%s#%d" % (os.path.basename(rel).replace(".c", ""), fn, var, n), file=rel, guard_type="%d bytes" % n, guard_size=n, ptr_type="uint8_t",
+                                  read_extent=ext, fields=sorted(set(reads))))
+    return sites
+
+
+def wide_key_sites(repo, L):
+    """pe.c version info: `fits_in_pe(pe, X->Key, sizeof("LIT") * 2)` guarding `strcmp_w(X->Key, "LIT2")`, which reads at most (strlen(LIT2) + 1) UTF-16 units"""
+    rel = "libyara/modules/pe/pe.c"
+    text = strip_comments(open(os.path.join(repo, rel)).read())
+    sites = []
+    for m in re.finditer(r'fits_in_pe\(\s*pe\s*,\s*(\w+)->Key\s*,\s*sizeof\("([^"]*)"\)\s*\*\s*2\s*\)\s*\)?\s*(?:return;|&&)?\s*(?:if\s*\()?\s*strcmp_w\(\s*\1->Key\s*,\s*"([^"]*)"\s*\)', text):
+        g, r_ = (len(m.group(2)) + 1) * 2, (len(m.group(3)) + 1) * 2
+        sites.append(dict(name="pe.pe_parse_version_info.%s->Key#%s" % (m.group(1), m.group(3)), file=rel, guard_type='sizeof(\\"%s\\")*2' % m.group(2), guard_size=g, ptr_type="UTF-16 string",
+                          read_extent=r_, fields=['strcmp_w(Key, \\"%s\\")' % m.group(3)]))
+    return sites
 
 
 def run(repo, gendir):
@@ -188,17 +232,19 @@ def run(repo, gendir):
     for rel in ("libyara/modules/pe/pe.c", "libyara/modules/pe/pe_utils.c", "libyara/modules/dotnet/dotnet.c"):
         s, b = struct_sites(repo, rel, L); sites += s; bad += b
     s, b = elf_sites(repo, L); sites += s; bad += b
+    for rel in ("libyara/modules/pe/pe.c", "libyara/modules/dotnet/dotnet.c"):
+        sites += numeric_sites(repo, rel, L)
+    sites += wide_key_sites(repo, L)
     # (d) strnlen bounds in pe.c
     text = strip_comments(open(os.path.join(repo, "libyara/modules/pe/pe.c")).read())
     bounds = re.findall(r"remaining\s*=\s*([^;]+);\s*name_len\s*=\s*strnlen\(\s*\(char\*\)\s*\(pe->data \+ offset\)\s*,\s*remaining\s*\)", text)
-    norm = {" ".join(b.split()) for b in bounds}
-    strn = None
-    if len(norm) == 1 and bounds:
-        e = norm.pop()
-        if re.fullmatch(r"pe->data_size - \(size_t\) offset", e): strn = ("(data_size - offset)", e, len(bounds))
-        elif re.fullmatch(r"pe->data_size - \(size_t\) offset ([+-]) (\d+)", e):
-            m = re.fullmatch(r"pe->data_size - \(size_t\) offset ([+-]) (\d+)", e)
-            strn = ("((data_size - offset) %s (%s#64))" % (m.group(1), m.group(2)), e, len(bounds))
+    norm = sorted({" ".join(b.split()) for b in bounds})
+    forms, strn_bad = [], []
+    for e in norm:
+        m = re.fullmatch(r"pe->data_size - \(size_t\) offset(?: ([+-]) (\d+))?", e)
+        if m: forms.append("(data_size - offset)" if not m.group(1) else "((data_size - offset) %s (%s#64))" % (m.group(1), m.group(2)))
+        else: strn_bad.append(e)
+    strn = (forms, norm, len(bounds)) if forms and not strn_bad else None
     out = ["/- GENERATED by translators/guards.py from pe.c / pe_utils.c / dotnet.c / elf.c and the packed layouts of pe.h / dotnet.h / elf.h — do not edit. -/",
            "set_option linter.unusedVariables false", "namespace YaraModel.Gen.Guards", "",
            "structure Site where", "  name : String", "  guardType : String", "  guardSize : Nat", "  ptrType : String", "  readExtent : Nat", "  fields : List String",
@@ -207,13 +253,14 @@ def run(repo, gendir):
            "def structGuards : List Site := ["]
     out.append(",\n".join('  ⟨"%s", "%s", %d, "%s", %d, [%s]⟩' % (s["name"], s["guard_type"], s["guard_size"], s["ptr_type"], s["read_extent"],
                                                                   ", ".join('"%s"' % f for f in s["fields"])) for s in sites))
-    out += ["]", "", "def unparsedGuards : List String := [%s]" % ", ".join('"%s"' % b.replace('"', "'") for b in bad), ""]
+    out += ["]", ""]
     if strn:
-        out += ["/-- pe.c (%d sites) `remaining = %s; strnlen((char*)(pe->data + offset), remaining)`: the number of bytes the walk may read -/" % (strn[2], strn[1]),
-                "def pe_strnlen_bound (data_size offset : BitVec 64) : BitVec 64 := %s" % strn[0], ""]
+        out += ["/-- pe.c (%d sites) `remaining = <e>; strnlen((char*)(pe->data + offset), remaining)`: the distinct bound expressions %s -/" % (strn[2], strn[1]),
+                "def pe_strnlen_bounds (data_size offset : BitVec 64) : List (BitVec 64) := [%s]" % ", ".join(strn[0]), ""]
     else:
-        out += ["/-- UNPARSED strnlen bound: %s -/" % sorted(norm), "def pe_strnlen_bound (data_size offset : BitVec 64) : BitVec 64 := 0#64", "def pe_strnlen_bound_unparsed : Unit := ()", ""]
-    out += ["end YaraModel.Gen.Guards", ""]
+        bad.append("pe.c strnlen bound expression(s) not recognised: %s" % (strn_bad or norm))
+        out += ["def pe_strnlen_bounds (data_size offset : BitVec 64) : List (BitVec 64) := []", "def pe_strnlen_bounds_unparsed : Unit := ()", ""]
+    out += ["def unparsedGuards : List String := [%s]" % ", ".join('"%s"' % b.replace('"', "'") for b in bad), "", "end YaraModel.Gen.Guards", ""]
     text_out = "\n".join(out)
     path = os.path.join(gendir, "Guards.lean")
     if not os.path.exists(path) or open(path).read() != text_out:
